@@ -373,6 +373,8 @@ def _decode_signature(P, b):
             continue
         if n.endswith(("from_be_bytes", "from_le_bytes", "from_ne_bytes", "to_be", "to_le", "swap_bytes", "from_be", "from_le")):
             convs.append(n.rsplit("::", 1)[-1])
+        if n.endswith(("[T]>::first", "slice::<impl [T]>::first")):
+            consts.add(0)          # `s.first()` examines byte 0 just as `s[0]` does
         for a in t["args"]:
             if "k" in a:
                 v = T.const_value(a["k"])
